@@ -26,6 +26,9 @@ fn one(u: &mut Unstructured<'_>) -> TransferCase {
         if_needed_hello: if u.int_in_range(0..=3u8).unwrap_or(0) == 0 { Some(u.int_in_range(0..=12u8).unwrap_or(0)) } else { None },
         dup_pages: u.int_in_range(0..=4u8).unwrap_or(0) == 0,
         bus_error_at: if u.int_in_range(0..=5u8).unwrap_or(0) == 0 { Some((u.int_in_range(0..=40usize).unwrap_or(0), u.int_in_range(0..=3u8).unwrap_or(0))) } else { None },
+        in_progress_at: if u.int_in_range(0..=7u8).unwrap_or(1) == 0 { Some(u.int_in_range(0..=2usize).unwrap_or(0)) } else { None },
+        // relation to the previous operation of a sequence (the sequence decoder below copies the page list)
+        relation: u.int_in_range(0..=7u8).unwrap_or(0).saturating_sub(4),
     }
 }
 
@@ -34,13 +37,27 @@ fuzz_target!(|data: &[u8]| {
     let mut u = Unstructured::new(data);
     let mut st = Stats::new();
     if u.arbitrary().unwrap_or(false) {
-        let case = one(&mut u);
+        let mut case = one(&mut u);
+        case.relation = 0;
         if let Err(m) = check_transfer(&case, &mut st) {
             common::violation("C09", "generated", serde_json::to_value(&case).unwrap(), m);
         }
     } else {
         let n = u.int_in_range(2..=4usize).unwrap_or(2);
-        let case = TransferSeq { ops: (0..n).map(|_| one(&mut u)).collect() };
+        let mut ops: Vec<TransferCase> = vec![];
+        for _ in 0..n {
+            let mut op = one(&mut u);
+            match (ops.last(), op.relation) {
+                (Some(prev), 1..=3) if prev.pages.is_some() => {
+                    op.pages = prev.pages.clone();
+                    op.seed = prev.seed;
+                    op.dup_pages = prev.dup_pages;
+                }
+                _ => op.relation = 0,
+            }
+            ops.push(op);
+        }
+        let case = TransferSeq { ops };
         if let Err(m) = check_transfer_seq(&case, &mut st) {
             common::violation("C09", "sequences", serde_json::to_value(&case).unwrap(), m);
         }
